@@ -329,7 +329,8 @@ func (f *Face) GlyphVOrigin(glyph GID) (x, y int32, found bool) {
 		fontExtents, _ := f.FontHExtents()
 		advance := fontExtents.Ascender - fontExtents.Descender
 		diff := advance - -extents.Height
-		y = int32(extents.YBearing + (diff / 2))
+		// harfbuzz computes y_bearing + (diff >> 1) on integers : round toward -infinity
+		y = int32(math.Floor(float64(extents.YBearing + (diff / 2))))
 		return x, y, true
 	}
 
